@@ -57,7 +57,9 @@ SIZES = [24, 25, 64, 300, 5000, 2, 12]
 # (Pages serves index.html only for the root URL "/": "/sub/" is answered by a redirect - C07 territory, not claimed)
 FILES = [("docs/page.html", ["/docs/page.html"], ["/docs/page"]), ("index.html", ["/index.html"], ["/", "/index"])]
 KINDS = [(6, "req"), (2, "rewrite_other_size"), (2, "rewrite_same_size"), (1, "touch"),
-         (1, "set_mtime_future"), (1, "set_mtime_past"), (1, "ctime_only")]
+         (1, "set_mtime_future"), (1, "set_mtime_past"), (1, "ctime_only"),
+         # the content is replaced and the mtime set explicitly NEAR the old one (restored from a backup, cp -p, an archive): 1..2 s off
+         (1, "replace_near_mtime")]
 MOD_KINDS = [k for _, k in KINDS[1:]]
 INM_FORMS = [(2, "none"), (3, "strong"), (2, "weak"), (3, "list"), (1, "star")]
 POS = ["first", "middle", "last"]
@@ -185,6 +187,8 @@ class C14(Prop):
                 if kind == "rewrite_other_size":
                     others = [s for s in SIZES if s != cur[f]]
                     op["size"] = cur[f] = t.choice(others)
+                if kind == "replace_near_mtime":
+                    op["delta"] = t.choice([-1400, -1100, -1900, -1000, 1100, 1400, 1000])
                 ops.append(op)
                 continue
             op = {"op": "req", "file": f, "adv": adv, "alias": t.draw(3), "asgi": t.draw(2), "inm": "none", "ims": False, "j": None}
@@ -323,6 +327,11 @@ class C14(Prop):
             f.mtime, f.ctime, f.skew = now - DAY_MS, now, "past"
             fs.set_times(f.rel, mtime=f.mtime / 1000.0, ctime=now / 1000.0)
             ctx.fault("clock_skew_past_mtime")
+        elif kind == "replace_near_mtime":
+            f.data = content(f.idx, f.version, f.size)
+            f.mtime, f.ctime = mt0 + op["delta"], now
+            fs.write(f.rel, f.data, mtime=f.mtime / 1000.0, ctime=now / 1000.0)
+            ctx.fault("content_replaced_mtime_set_nearby")
         elif kind == "ctime_only":
             f.ctime = now
             fs.set_times(f.rel, ctime=now / 1000.0)
